@@ -7,6 +7,7 @@ import (
 	"io"
 	"net/http"
 
+	"github.com/imroc/req/v3/internal/ascii"
 	"github.com/imroc/req/v3/internal/compress"
 	"github.com/imroc/req/v3/internal/dump"
 	"github.com/imroc/req/v3/internal/transport"
@@ -156,6 +157,7 @@ type requestStream struct {
 	sentRequest   bool
 	requestedGzip bool
 	isConnect     bool
+	isHead        bool
 }
 
 var _ RequestStream = &requestStream{}
@@ -208,6 +210,7 @@ func (s *requestStream) SendRequestHeader(req *http.Request) error {
 	}
 
 	s.isConnect = req.Method == http.MethodConnect
+	s.isHead = req.Method == http.MethodHead
 	s.sentRequest = true
 	return s.requestWriter.WriteRequestHeader(s.Stream, req, s.requestedGzip, headerDumps)
 }
@@ -270,13 +273,14 @@ func (s *requestStream) ReadResponse() (*http.Response, error) {
 	if (isInformational || isNoContent || isSuccessfulConnect) && res.ContentLength == -1 {
 		res.ContentLength = 0
 	}
-	if s.requestedGzip && res.Header.Get("Content-Encoding") == "gzip" {
+	s.responseBody = respBody
+	if s.requestedGzip && ascii.EqualFold(res.Header.Get("Content-Encoding"), "gzip") {
 		res.Header.Del("Content-Encoding")
 		res.Header.Del("Content-Length")
 		res.ContentLength = -1
 		s.responseBody = compress.NewGzipReader(respBody)
 		res.Uncompressed = true
-	} else if s.AutoDecompression {
+	} else if s.AutoDecompression && !s.isHead { // like HTTP/1 and HTTP/2: nothing to decode for HEAD
 		contentEncoding := res.Header.Get("Content-Encoding")
 		// only touch the response if the content coding is supported
 		if cr := compress.NewCompressReader(respBody, contentEncoding); cr != nil {
@@ -284,10 +288,8 @@ func (s *requestStream) ReadResponse() (*http.Response, error) {
 			res.Header.Del("Content-Length")
 			res.ContentLength = -1
 			res.Uncompressed = true
-			res.Body = cr
+			s.responseBody = cr
 		}
-	} else {
-		s.responseBody = respBody
 	}
 	res.Body = s.responseBody
 	return res, nil
